@@ -89,6 +89,7 @@ class Executor:
         self._lt_cache = {}
         self.dict_terms = {}              # id -> Ref term of every dict object met (bounded refutation pool)
         self.ref_args = []                # reference-typed arguments of the function under verification
+        self.deadline = None
 
     # ------------------------------------------------------------------ utilities
     def fnid(self, name):
@@ -286,6 +287,10 @@ class Executor:
         self.n_paths += 1
         if self.n_paths > 200000:
             raise Unsupported('path budget exceeded')
+        if self.deadline is not None and (self.n_paths & 15) == 0:
+            import time as _t
+            if _t.time() > self.deadline:
+                raise Unsupported('time budget of the bounded exploration exceeded')
         m = getattr(self, 'st_' + type(n).__name__, None)
         if m is None:
             raise Unsupported(f'statement {type(n).__name__} at {fr.fi.where}')
@@ -568,6 +573,15 @@ class Executor:
             # statically unrolled
             yield from self.unroll_tuple(n, st, fr, itv[1].items, 0)
             return
+        if sym.BOUND is not None and sym.UNROLL:
+            # bounded refutation by unrolling: every path is a real execution prefix, no invariant involved
+            idx_name = (spec.index if spec is not None and spec.index else '$k')
+            if itv is not None:
+                st.loc[idx_name] = vint(0)
+                if itv[0] == 'dict':
+                    st.assume(*sym.dict_wf(st.heap, itv[1].t))
+            yield from self.unrolled(n, st, fr, itv, idx_name, 0)
+            return
         if spec is None:
             raise Unsupported(f'loop without invariant in {fr.fi.qualname}: `{_loop_header(n)}`')
         self.loop_hits.add(spec.key)
@@ -633,6 +647,29 @@ class Executor:
                     yield from self.block(n.orelse, sb, fr)
                 else:
                     yield 'next', None, sb
+
+    def unrolled(self, n, st, fr, itv, idx_name, depth):
+        for cont, sb in self.loop_cond(n, st, fr, itv, idx_name):
+            if isinstance(cont, Exc):
+                yield 'raise', cont.name, sb
+                continue
+            if not cont:
+                if n.orelse:
+                    yield from self.block(n.orelse, sb, fr)
+                else:
+                    yield 'next', None, sb
+                continue
+            if depth > sym.BOUND:
+                continue                      # longer runs are outside the explored bound: path dropped
+            for kind, pay, s2 in self.block(n.body, sb, fr):
+                if kind in ('next', 'continue'):
+                    if itv is not None:
+                        s2.loc[idx_name] = vint(z3.simplify(s2.loc[idx_name].t + 1))
+                    yield from self.unrolled(n, s2, fr, itv, idx_name, depth + 1)
+                elif kind == 'break':
+                    yield 'next', None, s2
+                else:
+                    yield kind, pay, s2
 
     def unroll_tuple(self, n, st, fr, items, i):
         if i == len(items):
